@@ -1,0 +1,45 @@
+//go:build verif
+
+package uasc
+
+import (
+	"time"
+
+	"github.com/gopcua/opcua/internal/verifhook"
+)
+
+// Verification hooks for the send side (build tag "verif"). Add-only; not compiled in normal builds.
+
+// VerifSetSchedHook installs the controller called at every verifhook.Point of this process.
+func VerifSetSchedHook(f func(point string)) { verifhook.Set(f) }
+
+// VerifRenewalDelay is the delay scheduleRenewal waits before renewing a token of the given lifetime.
+func VerifRenewalDelay(lifetime time.Duration) time.Duration { return renewalDelay(lifetime) }
+
+// SchedRcvLocked reports whether the dispatcher gate (rcvLocker) is currently locked.
+func (v VerifChannel) SchedRcvLocked() bool {
+	v.S.rcvLocker.lockMu.Lock()
+	defer v.S.rcvLocker.lockMu.Unlock()
+	return v.S.rcvLocker.bLock
+}
+
+// SchedReqLocked reports whether the request gate (reqLocker) is currently locked.
+func (v VerifChannel) SchedReqLocked() bool {
+	v.S.reqLocker.lockMu.Lock()
+	defer v.S.reqLocker.lockMu.Unlock()
+	return v.S.reqLocker.bLock
+}
+
+// SchedInstanceSeqs returns the sequence counter of every instance stored for the active channel id, oldest first.
+func (v VerifChannel) SchedInstanceSeqs() []uint32 {
+	v.S.instancesMu.Lock()
+	defer v.S.instancesMu.Unlock()
+	var out []uint32
+	if v.S.activeInstance == nil {
+		return nil
+	}
+	for _, i := range v.S.instances[v.S.activeInstance.secureChannelID] {
+		out = append(out, i.sequenceNumber)
+	}
+	return out
+}
